@@ -20,7 +20,7 @@ ASSUMPTIONS = [
 
 
 def run():
-  return tvrun.run_tv('C01', {'core': (80, 800, None)}, FUNCTIONS, ASSUMPTIONS, 'DESIGN.md §3 C01',
+  return tvrun.run_tv('C01', {'core': (80, 2000, None)}, FUNCTIONS, ASSUMPTIONS, 'DESIGN.md §3 C01',
                       extra_fn=corpus.run)
 
 
